@@ -283,6 +283,25 @@ def gen_failing(ctx, fmts, rng):
             sc.close("h0")
             sc.end()
             out.append(sc)
+    # complete open attempts that never close a handed-over descriptor (`ledger tryopen`): a failing sf_open_fd (close_desc = 1) must close it itself;
+    # SD2 through a descriptor or virtual I/O is refused (the resource fork is found by name; before the repair sf_open_virtual created `._` in the working directory)
+    k = 0
+    for f in fmts:
+        if f.endian:
+            continue
+        sc = Sc("try-%s" % f.name, "failing-open")
+        ext = "sd2" if f.major == 0x16 else "x"
+        for (mode, fmt, ch) in (("w", f.word, 0), ("w", f.word, 1025), ("7", f.word, 1), ("r", f.word if f.major == 4 else 0, 1), ("rw", f.word, 1), ("w", f.word & 0xFFFF, 1)):
+            for route in (("fd1", "vio", "path", "fd0") if f.major == 0x16 else ("fd1", routes[k % 4])):
+                k += 1
+                sc.op("store s1 %s" % hx(bytes(rng.randrange(256) for _ in range(rng.choice([0, 5, 60])))))
+                sc.op("ledger tryopen s1 %s fmt=%08x ch=%d sr=8000 route=%s ext=%s" % (mode, fmt, ch, route, ext))
+        if f.major == 0x16:
+            for route in ("vio", "fd1", "fd0"):
+                for mode in ("w", "rw", "r"):
+                    sc.op("ledger tryopen s0 %s fmt=%08x ch=2 sr=8000 route=%s ext=sd2" % (mode, f.word, route))
+        sc.end()
+        out.append(sc)
     # the ALAC > 8 channel case repaired by 0aa127c / e9742d9: the spool file must not stay behind
     for ch in (9, 16):
         sc = Sc("fail-caf-alac-%dch" % ch, "failing-open")
@@ -444,6 +463,9 @@ def judge_end(sc, t):
     if bad:
         why.append("sanitizer/crash marker: " + bad[0])
         return why
+    left = [l for l in t if l.startswith("open=") and "fdleft=1" in l]
+    if left:
+        why.append("a descriptor handed to sf_open_fd with close_desc=1 is still open after the call returned: " + left[0])
     end = [l for l in t if l.startswith("balance=")]
     if not end:
         why.append("no `ledger end` line (the run did not complete)")
@@ -549,6 +571,24 @@ def run_scripts(ctx, scs):
     return {s.name: align(s, res.get(s.name, [])) for s in scs}
 
 
+def rdwr_fpe_class(ctx, script_text):
+    """KF-RDWR-FAILED-OPEN-FPE: class = the script's last open attempt is in rw mode; signature = SIGFPE in a *_write_header reached from
+    psf_open_file (the stack is only visible when the script runs on its own)"""
+    opens = [l for l in script_text.split("\n") if re.match(r"(open \S+ \S+ rw |ledger tryopen \S+ rw )", l)]
+    if not opens:
+        return False
+    lines, rc, err = ctx.script(script_text, env=LEAK_ENV)
+    return rc != 0 and "FPE" in err and "_write_header" in err and "psf_open_file" in err
+
+
+def waive_known(ctx, script_text):
+    for kf in ctx.known:
+        if kf.get("id") == "KF-RDWR-FAILED-OPEN-FPE" and kf.get("status") == "known" and rdwr_fpe_class(ctx, script_text):
+            ctx.known_finding(kf, "%s: %s" % (kf["id"], kf["text"]))
+            return True
+    return False
+
+
 def shrink_malformed(ctx, sc, fmt):
     """re-run every variant of a failing malformed group on its own; returns (single-variant scenario, reasons) for the first that fails"""
     singles = []
@@ -563,11 +603,15 @@ def shrink_malformed(ctx, sc, fmt):
             s1.end()
             singles.append(s1)
     tr = run_scripts(ctx, singles)
+    waived = False
     for s1 in singles:
         why = judge_end(s1, tr[s1.name])
         if why:
+            if waive_known(ctx, s1.script()):
+                waived = True       # in the class and with the signature of a known finding: look on for a failure that is not
+                continue
             return s1, why, tr[s1.name]
-    return None, None, None
+    return None, ("waived" if waived else None), None
 
 
 def replay(ctx, path):
@@ -660,6 +704,9 @@ def run(ctx):
                 s1, w1, t1 = shrink_malformed(ctx, sc, sc.fmt)
                 if s1 is not None:
                     ctx.violation("c16-" + s1.name, replay_text(s1, w1, t1))
+                    continue
+                if w1 == "waived":
+                    nviol -= 1
                     continue
             ctx.violation("c16-" + sc.name, replay_text(sc, why, t))
 
